@@ -136,3 +136,34 @@ def batched_equals_single(h, n, d):
         h.eq(f"gradient covariance, point {k}", np.asarray(G)[k], G1)
         h.eq(f"spatial_derivatives mean, point {k}", np.asarray(dm)[k], d1)
         h.eq(f"spatial_derivatives variance, point {k}", np.asarray(dv)[k], v1)
+
+
+@unit("C16", quick=[dict(d=1), dict(d=2)], cost=4)
+def derivatives_follow_the_current_hyperparameters(h, d):
+    """a regressor whose hyper-parameters were changed with set_hyperparameters after earlier queries must give the
+    same derivative predictions as one built directly with the new hyper-parameters (no state left from earlier calls)"""
+    import inference.gp.regression as rg
+    cv, mn = gc.patch_cov(h)
+    h.patch(rg, solve_triangular=stubs.solve_triangular, zeros=ozeros, cholesky=stubs.cholesky)
+    h.covers(rg.GpRegressor.set_hyperparameters, rg.GpRegressor.gradient, rg.GpRegressor.spatial_derivatives)
+    n = 1
+    x = h.real("x", (n, d))
+    y = h.real("y", n)
+    e = h.real("yerr", n, pos=True)
+    th1 = h.real("th1", d + 2)
+    th2 = h.real("th2", d + 2)
+    q = h.real("q", (1, d))
+
+    def mk(th):
+        K = cv.SquaredExponential(hyperpar_bounds=[(-5.0, 5.0)] * (d + 1))
+        M = mn.ConstantMean(hyperpar_bounds=[(-5.0, 5.0)])
+        return rg.GpRegressor(x, y, y_err=e, hyperpars=th, kernel=K, mean=M)
+    h.allow(np.linalg.LinAlgError)
+    a = mk(th1)
+    a(q), a.gradient(q), a.spatial_derivatives(q), a.build_posterior(q)
+    a.set_hyperparameters(th2)
+    b = mk(th2)
+    for name, fa, fb in (("__call__", a(q), b(q)), ("gradient", a.gradient(q), b.gradient(q)),
+                         ("spatial_derivatives", a.spatial_derivatives(q), b.spatial_derivatives(q)), ("build_posterior", a.build_posterior(q), b.build_posterior(q))):
+        for k, (u, v) in enumerate(zip(fa, fb)):
+            h.eq(f"{name}[{k}] after set_hyperparameters == fresh regressor", np.asarray(u), np.asarray(v))
